@@ -135,7 +135,7 @@ func applyLevel(h map[string]string, adds []hop, rm []string) {
 }
 
 func c17Engine(c *lab.Ctx) {
-	c.Rule("running MOSN, per protocol ~26 generated routes over the product of action fields; per route several requests (with/without query, pre-set header values); timeout-source probes at T/2 and 2T for the global timeout, and per-try timeout sources (header alone, with a global timeout header, with a protocol-supplied global timeout) judged by the number of upstream attempts; retry policies x per-attempt outcome sequences, sequential clients; distinct = (protocol, action kind, fields used, outcome class)")
+	c.Rule("running MOSN, per protocol ~26 generated routes over the product of action fields; per route several requests (with/without query, pre-set header values), on every second action route also a retried request whose two attempts must both receive the configured request; timeout-source probes at T/2 and 2T for the global timeout, and per-try timeout sources (header alone, with a global timeout header, with a protocol-supplied global timeout) judged by the number of upstream attempts; retry policies x per-attempt outcome sequences, sequential clients; distinct = (protocol, action kind, fields used, outcome class)")
 	rng := c.Rand("cfg")
 	protos := engineProtos
 	routesBy := map[string][]c17Route{}
@@ -162,6 +162,10 @@ func c17Engine(c *lab.Ctx) {
 				r.RegexRw = [2]string{"/x([0-9]+)", "/y$1"}
 			case 2:
 				r.HostRw = "rewritten-" + strings.ToLower(rng.Alnum(3)) + ".test"
+			}
+			if i%2 == 1 {
+				// every second action route may retry: a retried attempt must receive the same configured request
+				r.HasRetry, r.RetryOn, r.NumRetries = true, true, 2
 			}
 			add(r)
 		}
@@ -347,30 +351,68 @@ func c17Engine(c *lab.Ctx) {
 						up := ups[0]
 						wit := map[string]interface{}{"proto": proto, "route": fmt.Sprintf("%+v", r), "vhost_req_add": fmt.Sprint(vhReqAdd), "vhost_req_rm": vhReqRm, "router_req_add": fmt.Sprint(rtReqAdd), "router_req_rm": rtReqRm,
 							"sent_headers": sent, "upstream_saw": fmt.Sprint(up.Headers), "uri_sent": req.Path, "uri_upstream": up.URI, "host_upstream": up.Host, "client_saw": fmt.Sprint(ev.Headers)}
-						// request headers: route -> virtual host -> router
-						want := map[string]string{}
-						for k, v := range sent {
-							want[k] = v
-						}
-						applyLevel(want, r.ReqAdd, r.ReqRemove)
-						applyLevel(want, vhReqAdd, vhReqRm)
-						applyLevel(want, rtReqAdd, rtReqRm)
-						got := map[string]string{}
-						for _, kv := range up.Headers {
-							for _, n := range c17Names {
-								if kv[0] == n {
-									if cur, ok := got[n]; ok {
-										got[n] = cur + "," + kv[1]
-									} else {
-										got[n] = kv[1]
+						// what one upstream attempt must have received (request side)
+						judgeUp := func(up upEvent, attempt string) {
+							wit["upstream_saw"], wit["uri_upstream"], wit["host_upstream"], wit["attempt"] = fmt.Sprint(up.Headers), up.URI, up.Host, attempt
+							// request headers: route -> virtual host -> router
+							want := map[string]string{}
+							for k, v := range sent {
+								want[k] = v
+							}
+							applyLevel(want, r.ReqAdd, r.ReqRemove)
+							applyLevel(want, vhReqAdd, vhReqRm)
+							applyLevel(want, rtReqAdd, rtReqRm)
+							got := map[string]string{}
+							for _, kv := range up.Headers {
+								for _, n := range c17Names {
+									if kv[0] == n {
+										if cur, ok := got[n]; ok {
+											got[n] = cur + "," + kv[1]
+										} else {
+											got[n] = kv[1]
+										}
 									}
 								}
 							}
+							if fmt.Sprint(sortedMap(want)) != fmt.Sprint(sortedMap(got)) {
+								c.Violation("request-header-actions", "C17/request-headers/"+proto,
+									fmt.Sprintf("%s route %s (%s): upstream received %v for the mutated headers, the configured actions (route, then virtual host, then router) give %v", proto, r.Key, attempt, sortedMap(got), sortedMap(want)), wit)
+							}
+							if isHTTP {
+								origPath := "/" + r.Key + sub
+								wantPath := origPath
+								if r.PrefixRw != "" {
+									wantPath = r.PrefixRw + strings.TrimPrefix(origPath, "/"+r.Key)
+								} else if r.RegexRw[0] != "" {
+									wantPath = regexp.MustCompile(r.RegexRw[0]).ReplaceAllString(origPath, r.RegexRw[1])
+								}
+								wantURI := wantPath
+								if query != "" {
+									wantURI += "?" + query
+								}
+								if up.URI != wantURI {
+									c.Violation("path-rewrite", "C17/path-rewrite/"+proto+"/"+c17RwKind(r),
+										fmt.Sprintf("%s route %s (%s, %s): request %s reached the upstream as %s, expected %s", proto, r.Key, c17RwKind(r), attempt, req.Path, up.URI, wantURI), wit)
+								}
+								if wantPath != origPath {
+									op := ""
+									for _, kv := range up.Headers {
+										if kv[0] == "x-mosn-original-path" {
+											op = kv[1]
+										}
+									}
+									if op != origPath {
+										c.Violation("original-path-header", "C17/original-path-header/"+proto,
+											fmt.Sprintf("%s route %s: rewritten request carries x-mosn-original-path=%q, expected %q", proto, r.Key, op, origPath), wit)
+									}
+								}
+								if proto == "Http1" && r.HostRw != "" && up.Host != r.HostRw {
+									c.Violation("host-rewrite", "C17/host-rewrite/Http1",
+										fmt.Sprintf("route %s host_rewrite=%s: upstream saw Host %q", r.Key, r.HostRw, up.Host), wit)
+								}
+							}
 						}
-						if fmt.Sprint(sortedMap(want)) != fmt.Sprint(sortedMap(got)) {
-							c.Violation("request-header-actions", "C17/request-headers/"+proto,
-								fmt.Sprintf("%s route %s: upstream received %v for the mutated headers, the configured actions (route, then virtual host, then router) give %v", proto, r.Key, sortedMap(got), sortedMap(want)), wit)
-						}
+						judgeUp(up, "first")
 						// response headers
 						wantR := map[string]string{}
 						for k, v := range upResp {
@@ -395,37 +437,21 @@ func c17Engine(c *lab.Ctx) {
 							c.Violation("response-header-actions", "C17/response-headers/"+proto,
 								fmt.Sprintf("%s route %s: client received %v for the mutated response headers, the configured actions give %v", proto, r.Key, sortedMap(gotR), sortedMap(wantR)), wit)
 						}
-						if isHTTP {
-							origPath := "/" + r.Key + sub
-							wantPath := origPath
-							if r.PrefixRw != "" {
-								wantPath = r.PrefixRw + strings.TrimPrefix(origPath, "/"+r.Key)
-							} else if r.RegexRw[0] != "" {
-								wantPath = regexp.MustCompile(r.RegexRw[0]).ReplaceAllString(origPath, r.RegexRw[1])
-							}
-							wantURI := wantPath
-							if query != "" {
-								wantURI += "?" + query
-							}
-							if up.URI != wantURI {
-								c.Violation("path-rewrite", "C17/path-rewrite/"+proto+"/"+c17RwKind(r),
-									fmt.Sprintf("%s route %s (%s): request %s reached the upstream as %s, expected %s", proto, r.Key, c17RwKind(r), req.Path, up.URI, wantURI), wit)
-							}
-							if wantPath != origPath {
-								op := ""
-								for _, kv := range up.Headers {
-									if kv[0] == "x-mosn-original-path" {
-										op = kv[1]
-									}
-								}
-								if op != origPath {
-									c.Violation("original-path-header", "C17/original-path-header/"+proto,
-										fmt.Sprintf("%s route %s: rewritten request carries x-mosn-original-path=%q, expected %q", proto, r.Key, op, origPath), wit)
-								}
-							}
-							if proto == "Http1" && r.HostRw != "" && up.Host != r.HostRw {
-								c.Violation("host-rewrite", "C17/host-rewrite/Http1",
-									fmt.Sprintf("route %s host_rewrite=%s: upstream saw Host %q", r.Key, r.HostRw, up.Host), wit)
+						if r.HasRetry {
+							// the same request again, first attempt answered 503: both attempts must have received the configured request
+							t2 := tok(proto)
+							req2 := req
+							req2.Token, req2.Plan = t2, "s503|ok"
+							c.Case("c17 action+retry %s route=%s token=%s path=%s", proto, r.Key, t2, req2.Path)
+							ev2 := cl.do(req2)
+							c.Eval(1)
+							ups2 := e.log.upsFor(t2)
+							if ev2.Kind != "response" || len(ups2) != 2 {
+								c.Inconclusive(fmt.Sprintf("retried action request: %d attempts, outcome %s", len(ups2), ev2.Kind))
+							} else {
+								judgeUp(ups2[0], "attempt 1 of a retried request")
+								judgeUp(ups2[1], "attempt 2 of a retried request")
+								c.Distinct(fmt.Sprintf("%s|action-retried|%s", proto, c17RwKind(r)))
 							}
 						}
 						c.Distinct(fmt.Sprintf("%s|action|%s|%d%d%d%d", proto, c17RwKind(r), len(r.ReqAdd), len(r.ReqRemove), len(r.RespAdd), len(r.RespRemove)))
